@@ -230,4 +230,6 @@ pub mod verif {
     pub use crate::constant_storage::ConstantStorage;
     #[cfg(feature = "onnx_format")]
     pub use crate::model::verif_external_data::*;
+    // C23: sequence-number log of the buffer pool's critical sections.
+    pub use crate::buffer_pool::verif_log as pool_log;
 }
